@@ -1466,6 +1466,8 @@ void DOMLSSerializerImpl::procCdataSection(const XMLCh*   const nodeValue
 {
     static const XMLSize_t offset = XMLString::stringLen(gEndCDATA);
 
+    ensureValidString(nodeToWrite, nodeValue);
+
     /***
      * Append a ']]>' at the end
      */
